@@ -421,5 +421,46 @@ func checkC39(w *World, r *Run) {
 		})
 		r.Check(okAll, ruleDel, "validateObject: every recorded failure clears Success", vo.Pos(), "Success = false next to each PartFailures/ObjectFailures append", "a part or object failure is recorded but the object still counts as successful")
 	}
+	// every part that was read and hashed is compared with its row: from the hash computation
+	// no path returns to the loop head (or leaves the function) without verifyPartChecksums or
+	// a recorded failure
+	ruleEach := r.Rule("every-hashed-part-is-compared", "F1",
+		"in validateObject every path from CalculateChecksumsStreaming back to the part loop's head passes verifyPartChecksums or clears Success: no part is exempt from the comparison of its own bytes with its own recorded digests (the object-level comparison of multipart-form ETags uses recorded part digests, not the bytes)", 1)
+	if vo != nil {
+		var calc *ssa.Call
+		allInstrs(vo, true, func(_ *ssa.Function, ins ssa.Instruction) {
+			if c, ok := ins.(*ssa.Call); ok && isCallNamed(c, "CalculateChecksumsStreaming") {
+				calc = c
+			}
+		})
+		if calc == nil {
+			r.Bad(ruleEach, "validateObject: hashed part → verifyPartChecksums", vo.Pos(), "no CalculateChecksumsStreaming call found")
+		} else {
+			escapes := sinksReachable(calc,
+				func(i ssa.Instruction) bool {
+					if c, ok := i.(*ssa.Call); ok && isCallNamed(c, "verifyPartChecksums") {
+						return true
+					}
+					if v, ok := isFieldStore(i, "Success"); ok {
+						if b, isb := boolConst(v); isb && !b {
+							return true
+						}
+					}
+					return false
+				}, nil,
+				func(i ssa.Instruction) bool {
+					if _, isRet := i.(*ssa.Return); isRet {
+						return true
+					}
+					b := i.Block()
+					return b != calc.Block() && b.Dominates(calc.Block()) && i == b.Instrs[0]
+				})
+			pos := calc.Pos()
+			if len(escapes) > 0 {
+				pos = posOf(escapes[0])
+			}
+			r.Check(len(escapes) == 0, ruleEach, "validateObject: hashed part → verifyPartChecksums", pos, "compared or failed on every path", "a part's bytes can be hashed and then skipped without being compared with the part row: a corrupted part of such an object is reported intact")
+		}
+	}
 	r.NotCovered("digest arithmetic; objects that are not listed (non-current versions, pending uploads); parts shared between objects are read once per object; the interactive confirmation; that listing and validation race with concurrent writers")
 }
